@@ -1,6 +1,8 @@
 package types
 
 import (
+	"fmt"
+
 	"cosmossdk.io/math"
 	sdk "github.com/cosmos/cosmos-sdk/types"
 )
@@ -21,6 +23,13 @@ func (p *Pool) ExitPool(ctx sdk.Context, oracleKeeper OracleKeeper, accountedPoo
 // exitPool exits the pool given exitingCoins and exitingShares.
 // updates the pool's liquidity and totalShares.
 func (p *Pool) processExitPool(_ sdk.Context, exitingCoins sdk.Coins, exitingShares math.Int) error {
+	// an exit must not take the whole balance of an asset: Coins.Sub below drops a coin that
+	// becomes zero, so the book of that asset would silently stay unchanged
+	for _, coin := range exitingCoins {
+		if coin.Amount.GTE(p.GetTotalPoolLiquidity().AmountOf(coin.Denom)) {
+			return fmt.Errorf("can't exit the whole pool balance of %s", coin.Denom)
+		}
+	}
 	balances := p.GetTotalPoolLiquidity().Sub(exitingCoins...)
 	if err := p.UpdatePoolAssetBalances(balances); err != nil {
 		return err
